@@ -9,7 +9,7 @@ ap.add_argument("--seeds", default="")
 ap.add_argument("--tier", default="quick")
 a = ap.parse_args()
 root = "/verif/seeded"
-seeds = [s for s in sorted(os.listdir(root)) if os.path.isdir(f"{root}/{s}")]
+seeds = [s for s in sorted(os.listdir(root)) if os.path.isdir(f"{root}/{s}") and os.path.exists(f"{root}/{s}/meta.json")]
 if a.seeds:
     seeds = [s for s in seeds if s in a.seeds.split(",")]
 manifest = json.load(open("/verif/MANIFEST.json"))
